@@ -173,6 +173,7 @@ var stepProgs = []stepProg{
 	{"if(c, x, y)", 2}, {"c ? x : y", 2},
 	{"get(o, x)", 1}, {"get(xs, i, x)", 1}, {"get(m, k, x)", 1},
 	{"id(x)", 1}, {"[x, y][i]", 2}, {"[k: x][k]", 1}, {"{f: x, g: y}.g", 2},
+	{"[{f: x, g: x}, {f: x, g: y}][i].g", 2}, {"[{f: xs, g: xs}, {f: [x], g: [y]}][i].g", 2}, {"if(c, {f: x, g: x}, {f: y, g: x}).f", 2},
 	{"x == y", 2}, {"string(x)", 1}, {"len([x, y])", 2}, {"union([x], [y])", 2},
 }
 
